@@ -2,9 +2,19 @@
 void scen_c01(mt_case *);
 void scen_c04(mt_case *);
 void scen_c05(mt_case *);
+void scen_c06(mt_case *);
+void scen_c07(mt_case *);
+void scen_c08(mt_case *);
+void scen_c09(mt_case *);
+void scen_c14(mt_case *);
 const mt_scenario mt_scenarios[] = {
   { 1, "C01 create/join", scen_c01 },
   { 4, "C04 mutex", scen_c04 },
   { 5, "C05 condition variables", scen_c05 },
+  { 6, "C06 barrier", scen_c06 },
+  { 7, "C07 join counter", scen_c07 },
+  { 8, "C08 uncond", scen_c08 },
+  { 9, "C09 felock", scen_c09 },
+  { 14, "C14 once", scen_c14 },
 };
 const int mt_n_scenarios = sizeof mt_scenarios / sizeof mt_scenarios[0];
